@@ -190,6 +190,24 @@ def run_tlc(
     return res
 
 
+def clamp_ints(x, lim=2 ** 30):
+    """TLC integers are 32-bit: a number the code reports beyond +-2^30 (only a misbehaving tree does, in the traces that use plain integers)
+    is sent as +-2^30, which still differs from every value the small models expect - the trace gets a verdict instead of an overflow"""
+    if isinstance(x, bool):
+        return x
+    if isinstance(x, int):
+        return max(-lim, min(lim, x))
+    if isinstance(x, float):
+        return max(-lim, min(lim, int(x)))
+    if isinstance(x, list):
+        return [clamp_ints(v, lim) for v in x]
+    if isinstance(x, tuple):
+        return [clamp_ints(v, lim) for v in x]
+    if isinstance(x, dict):
+        return {k: clamp_ints(v, lim) for k, v in x.items()}
+    return x
+
+
 def tla_str(s):
     return '"' + s.replace("\\", "\\\\").replace('"', '\\"') + '"'
 
